@@ -114,6 +114,28 @@ def r1(ctx):
                         ctx.ob("R1", f"{f.qualname.split('.', 3)[-1]}: position advances by a measured length", uses_len or synthetic, func=f, node=x,
                                instance=f"{f.name}:position:{unparse(val)}",
                                message=f"{f.qualname}: `self.position` is set from `{unparse(val)}`, not from the number of bytes received")
+                        # a per-chunk length is only valid inside the loop that reads the chunk: applied once after the loop it
+                        # counts the last chunk instead of everything that was read
+                        chunk_vars = {}
+                        for c in _underlying_reads(f):
+                            cur, par = c, getattr(c, "_parent", None)
+                            while isinstance(par, (ast.Await, ast.IfExp)):
+                                cur, par = par, getattr(par, "_parent", None)
+                            tname = None
+                            if isinstance(par, ast.Assign) and isinstance(par.targets[0], ast.Name):
+                                tname = par.targets[0].id
+                            elif isinstance(par, ast.NamedExpr):
+                                tname = par.target.id
+                            if tname:
+                                chunk_vars[tname] = next((a for a in ancestors(c) if isinstance(a, (ast.While, ast.For, ast.AsyncFor))), None)
+                        for y in ast.walk(val):
+                            if isinstance(y, ast.Call) and unparse(y.func) == "len" and y.args and isinstance(y.args[0], ast.Name) and y.args[0].id in chunk_vars:
+                                loop = chunk_vars[y.args[0].id]
+                                mine = next((a for a in ancestors(x) if isinstance(a, (ast.While, ast.For, ast.AsyncFor))), None)
+                                ctx.ob("R1", f"{f.qualname.split('.', 3)[-1]}: a per-chunk length is accounted inside the loop that reads the chunk",
+                                       loop is None or mine is loop, func=f, node=x, instance=f"{f.name}:position-chunk:{y.args[0].id}",
+                                       message=f"{f.qualname}: `self.position` advances by `len({y.args[0].id})`, the length of the last chunk read in the loop, "
+                                               "after the loop has ended: every read that needed more than one chunk leaves the position behind the stream")
     ctx.require(n >= 3, f"C23.R1: only {n} underlying reads found")
 
 
@@ -353,6 +375,10 @@ FLOORS = {"R1": 5, "R2": 2, "R3": 4, "R4": 6, "R5": 5, "R6": 2}
 
 T = f"{MOD}.TellableStreamWrapper.read"
 VARIANTS = [
+    V("TellableStreamWrapper.read counts only the last chunk", FILE, f"{MOD}.TellableStreamWrapper.read", "self.position += len(buf)", "self.position += len(res)", "R1"),
+    V("TellableStreamWrapper.read accounts each chunk inside the loop (benign)", FILE, f"{MOD}.TellableStreamWrapper.read",
+      "        buf += res\n    self.position += len(buf)", "        buf += res\n        self.position += len(res)", None),
+
     V("seek: single underlying read, position = offset (S5a revert)", FILE, f"{MOD}.SeekableStreamReaderWrapper.seek",
       "await self.read(offset - self.position)", "await self.stream.read(offset - self.position)\n        self.position = offset", "R1", control=True),
     V("seek skips with single raw reads per record", FILE, f"{MOD}.SeekableStreamReaderWrapper.seek",
